@@ -10,7 +10,7 @@
     already due. *)
 From Coq Require Import List Arith Bool Lia NArith.
 From CM Require Import Maintain.Model Maintain.Spec Maintain.Base Maintain.Inv Maintain.Proofs
-  Maintain.SpecSound Maintain.XModel Maintain.XProofs Maintain.XSound Maintain.Issuers Maintain.IssuersProofs.
+  Maintain.SpecSound Maintain.XModel Maintain.XProofs Maintain.XSound Maintain.Issuers Maintain.IssuersProofs Maintain.FinalProofs.
 From CM Require Maintain.Check.
 From CM Require Gen.Consts.
 Import ListNotations.
@@ -382,6 +382,134 @@ Theorem C05_issuer_chain_fails_iff_all_fail : forall order fails,
 Proof. intros order fails. split; [apply first_working_none | apply first_working_some]. Qed.
 Print Assumptions C05_issuer_chain_fails_iff_all_fail.
 
+(** ** The clauses read off per-issuer storage. [tags] assigns an issuer key to every save that built
+    the storage (any assignment); [mload] is what loadCertResourceAnyIssuer returns. *)
+Theorem C05_adopts_external_renewal_any_issuer : forall od idue s p c st tags,
+  WF od s -> stack_ordered (store s) -> length tags = length (store s) ->
+  take_pass p (passes s) = None ->
+  In c (cache s) -> eligible od c = true ->
+  mload (concretize (store s) tags) (chead c) = Some st -> cdue st = false ->
+  let s' := step od idue (step od idue s (PassScan p)) (PassAct p) in
+  In st (cache s') /\ ~ In c (cache s') /\
+  (forall m, In m (cnames st) -> In st (resolve m (cache s'))) /\
+  store s' = store s /\ issued s' = issued s /\ failed s' = failed s /\
+  mload (concretize (store s') tags) (chead c) = Some st.
+Proof. exact adopts_external_renewal_any_issuer. Qed.
+Print Assumptions C05_adopts_external_renewal_any_issuer.
+
+Theorem C05_renews_once_any_issuer : forall od idue s h n tags,
+  idue = false -> WF od s -> stack_ordered (store s) -> length tags = length (store s) ->
+  cnt (issued (run od idue s h)) n <=
+  cnt (issued s) n + (if mfresh (concretize (store s) tags) n then 0 else 1).
+Proof. exact renews_once_any_issuer. Qed.
+Print Assumptions C05_renews_once_any_issuer.
+
+(** after a renewal the most recently issued bundle — under whichever issuer's key [t] the chain
+    saved it, the other issuers' old bundles still lying there — is the new certificate, and that is
+    the one cached and answering for the name *)
+Theorem C05_renewal_end_to_end_any_issuer : forall od idue s p c st tags t,
+  WF od s -> stack_ordered (store s) -> take_pass p (passes s) = None ->
+  In c (cache s) -> eligible od c = true ->
+  scan_renew od (store s) (cache s) = [c] ->
+  stored (store s) (chead c) = Some st ->
+  is_failing s (chead c) = false -> no_job_for (chead c) (jobs s) = true ->
+  length tags = length (store s) ->
+  let n := chead c in
+  let s' := run od idue s [PassScan p; PassAct p; JobStep n 0; JobStep n 0; JobStep n 0] in
+  mload (concretize (store s') (t :: tags)) n = Some (new_cert idue s n) /\
+  In (new_cert idue s n) (resolve n (cache s')) /\ ~ In c (cache s') /\
+  cnt (issued s') n = S (cnt (issued s) n).
+Proof. exact renewal_end_to_end_any_issuer. Qed.
+Print Assumptions C05_renewal_end_to_end_any_issuer.
+
+(** ** Reload of an identical certificate (the cache copy counts as due by its in-memory renewal
+    information, the stored resource of the same certificate does not): the pass replaces the copy
+    by the stored one — every name keeps being answered, nothing is issued, no renewal job is
+    submitted, every certificate that is not due stays *)
+Theorem C05_reload_identical_keeps_every_name_served : forall od idue s p c st x,
+  WF od s -> take_pass p (passes s) = None ->
+  In c (cache s) -> eligible od c = true ->
+  stored (store s) (chead c) = Some st -> cdue st = false -> cnames st = cnames c ->
+  In x (cache s) -> eligible od x = false ->
+  let s' := step od idue (step od idue s (PassScan p)) (PassAct p) in
+  (forall m, In m (cnames c) -> In st (resolve m (cache s')) /\ ~ In c (resolve m (cache s'))) /\
+  In x (cache s') /\
+  store s' = store s /\ issued s' = issued s /\ failed s' = failed s /\
+  filter (is_renew_for (chead c)) (jobs s') = filter (is_renew_for (chead c)) (jobs s).
+Proof. exact reload_identical_keeps_every_name_served. Qed.
+Print Assumptions C05_reload_identical_keeps_every_name_served.
+
+(** ** An OCSP pass that works on some of the revoked certificates only (updateOCSPStaples skips
+    expired ones; revocation for key compromise takes a path outside the model): for EVERY sub-list
+    [L] of the revoked certificates, in any order — those processed are gone, all others stay *)
+Theorem C05_ocsp_pass_over_any_sublist : forall od idue x L,
+  idue = false -> XWF od x -> (forall r, In r L -> In r (revoked_certs x)) ->
+  let s' := ocsp_pass_over idue x L in
+  (forall c, In c L -> lock_held (jobs (core x)) (chead c) = false -> ~ In c (cache s')) /\
+  (forall c, In c (cache (core x)) -> ~ In c L -> In c (cache s')) /\
+  jobs s' = jobs (core x) /\ passes s' = passes (core x).
+Proof. exact ocsp_pass_over_any_sublist. Qed.
+Print Assumptions C05_ocsp_pass_over_any_sublist.
+
+(** one forced renewal of a revoked certificate, for EVERY kind of issuer (no hypothesis on [idue]):
+    it leaves the cache, nothing else does; chain fails / nothing stored: storage and successes
+    untouched; otherwise exactly one certificate is issued, stored and cached *)
+Theorem C05_force_renew_any_issuer : forall od idue s c,
+  WF od s -> In c (cache s) -> lock_held (jobs s) (chead c) = false ->
+  let n := chead c in let s' := force_renew idue s c in
+  ~ In c (cache s') /\
+  (forall x, In x (cache s) -> cid x <> cid c -> In x (cache s')) /\
+  (is_failing s n = true \/ stored (store s) n = None ->
+     stored (store s') n = stored (store s) n /\ cnt (issued s') n = cnt (issued s) n) /\
+  (is_failing s n = false -> stored (store s) n <> None ->
+     stored (store s') n = Some (new_cert idue s n) /\ In (new_cert idue s n) (cache s') /\
+     cnt (issued s') n = S (cnt (issued s) n) /\ cnt (failed s') n = cnt (failed s) n).
+Proof. exact force_renew_any_issuer. Qed.
+Print Assumptions C05_force_renew_any_issuer.
+
+(** the hypothesis [idue = false] of [C05_revocation_wf_invariant] cannot be dropped: with an
+    issuer that hands out already-due certificates a forced renewal breaks "a queued reload stays
+    reloadable" (the pass that scanned before then loads a due certificate; the next pass renews
+    the name again). The statements about what an OCSP pass keeps ([C05_ocsp_pass_keeps_unrevoked])
+    and how often it asks the issuer ([C05_ocsp_pass_once_per_revoked]) hold for every issuer. *)
+Theorem C05_revocation_wf_invariant_any_issuer_refuted :
+  exists od x ord, XWF od x /\ ~ XWF od (xstep od true x (OcspPass ord)).
+Proof. exists rf_od, rf_x, []. exact revocation_invariant_idue_refuted. Qed.
+Print Assumptions C05_revocation_wf_invariant_any_issuer_refuted.
+
+(** ** A pass (or job step, or another instance's save, or an issuer switch) that reports an error —
+    the harness observes a panic of the code under test as one — or a pass that does not adopt
+    what its scan found renewed, is rejected by the monitor, whatever else was observed; the
+    model's passes never report an error *)
+Theorem C05_monitor_rejects_pass_error : forall od idue k pend p b a,
+  o_err a = true ->
+  spec_step od idue k pend (PassScan p) b a = false /\ spec_step od idue k pend (PassAct p) b a = false.
+Proof. exact monitor_rejects_pass_error. Qed.
+Print Assumptions C05_monitor_rejects_pass_error.
+
+Theorem C05_monitor_rejects_silent_event_error : forall od idue k pend e b a,
+  (exists n kk, e = JobStep n kk) \/ (exists n r, e = ExtRenew n r) \/ (exists n f, e = SetIssuer n f) ->
+  o_err a = true -> spec_step od idue k pend e b a = false.
+Proof. exact monitor_rejects_silent_event_error. Qed.
+Print Assumptions C05_monitor_rejects_silent_event_error.
+
+Theorem C05_monitor_rejects_pass_without_adoption : forall od idue k pend p q rest b a c st,
+  take_pass p pend = Some (q, rest) -> In c (preload q) ->
+  ost b (chead c) = Some st -> cid st <> cid c -> mem_cert c (o_cache a) = true ->
+  spec_step od idue k pend (PassAct p) b a = false.
+Proof. exact monitor_rejects_pass_without_adoption. Qed.
+Print Assumptions C05_monitor_rejects_pass_without_adoption.
+
+Theorem C05_monitor_rejects_manage_error_without_issuer_failure : forall od idue k pend n async b a,
+  ofl a n = ofl b n -> o_err a = true -> spec_step od idue k pend (Manage n async) b a = false.
+Proof. exact monitor_rejects_manage_error_without_issuer_failure. Qed.
+Print Assumptions C05_monitor_rejects_manage_error_without_issuer_failure.
+
+Theorem C05_model_pass_never_errs : forall od idue s p,
+  lasterr (step od idue s (PassScan p)) = false /\ lasterr (step od idue s (PassAct p)) = false.
+Proof. exact model_pass_never_errs. Qed.
+Print Assumptions C05_model_pass_never_errs.
+
 (** ** Facts about the source text the model rests on, re-read from the working tree by the
     translator on every run ([harness/cmd/consts/c05.go]): a pass scans under the cache's read lock
     and acts (reload loop, then renewal loop) after releasing it; the scan skips unmanaged
@@ -561,3 +689,59 @@ Proof.
   - cbn. repeat split; intros d H; repeat (destruct H as [H|H]; [inversion H|]); destruct H.
   - vm_compute. repeat split.
 Qed.
+
+(** hypotheses of the per-issuer-storage theorems on [ex_adopt] (the external renewal [c4] lies
+    under the backup issuer's key 1, the other bundles under key 0) and on [ex_stale] *)
+Example ex_any_issuer :
+  stack_ordered (store ex_adopt) /\ length [1; 0; 0] = length (store ex_adopt) /\
+  mload (concretize (store ex_adopt) [1; 0; 0]) (chead c0) = Some c4 /\ cdue c4 = false /\
+  mfresh (concretize (store ex_adopt) [1; 0; 0]) 0 = true /\
+  mfresh (concretize (store (ex_stale [])) [0; 1; 0]) 0 = false /\
+  stack_ordered (store (ex_stale [])).
+Proof.
+  repeat split; try (vm_compute; reflexivity);
+    cbn; repeat split; intros d H; repeat (destruct H as [H|H]; [inversion H|]); destruct H.
+Qed.
+(** hypotheses of [C05_reload_identical_keeps_every_name_served]: [cA] is the cache copy (due by its
+    in-memory renewal information) of the stored, fresh [c4]: same names *)
+Definition cA := Cert 6 0 [3] true true.
+Definition ex_identical : state := State [(0, c4); (1, c1)] [cA; c1; c3] [] [] [] [] [] 7 false.
+Example ex_reload_identical :
+  WF ex_od ex_identical /\ take_pass 3 (passes ex_identical) = None /\
+  In cA (cache ex_identical) /\ eligible ex_od cA = true /\
+  stored (store ex_identical) (chead cA) = Some c4 /\ cdue c4 = false /\ cnames c4 = cnames cA /\
+  In c1 (cache ex_identical) /\ eligible ex_od c1 = false /\
+  cache (run ex_od false ex_identical [PassScan 3; PassAct 3]) = [c1; c3; c4].
+Proof.
+  split; [apply (wf_b_sound ex_od 4); vm_compute; reflexivity|]. vm_compute. intuition.
+Qed.
+(** hypotheses of [C05_ocsp_pass_over_any_sublist]: two revoked certificates, only one processed *)
+Example ex_ocsp_sublist :
+  let x := ex_x [] [1; 0] in
+  XWF ex_od x /\ (forall r, In r [c1] -> In r (revoked_certs x)) /\
+  lock_held (jobs (core x)) (chead c1) = false /\ In c0 (cache (core x)) /\ ~ In c0 [c1] /\
+  cache (ocsp_pass_over false x [c1]) = [c0; c2; c3; Cert 5 1 [] false true].
+Proof.
+  cbn zeta. split.
+  - constructor; cbn [core rev ex_x]; [apply ex_stale_wf| |].
+    + intros i [<-|[<-|[]]]; reflexivity.
+    + repeat constructor; cbn; intuition discriminate.
+  - repeat split; try (vm_compute; intuition; fail).
+    intros [H|[]]. discriminate.
+Qed.
+(** hypotheses of the rejection theorems: the observation after a pass that panicked (err) and
+    left the renewed-elsewhere certificate [c0] where it was *)
+Example ex_rejected :
+  let b := observe 4 ex_adopt in
+  let a := Obs (o_cache b) (o_store b) (o_index b) (o_served b) (o_issued b) (o_failed b) (o_jobs b) true in
+  let pend := [Pass 7 (scan_reload ex_od (store ex_adopt) (cache ex_adopt)) (scan_renew ex_od (store ex_adopt) (cache ex_adopt))] in
+  o_err a = true /\ take_pass 7 pend = Some (Pass 7 [c0] [], []) /\
+  ost b (chead c0) = Some c4 /\ cid c4 <> cid c0 /\ mem_cert c0 (o_cache a) = true /\
+  spec_step ex_od false 4 pend (PassAct 7) b a = false.
+Proof. vm_compute. repeat split; try reflexivity. discriminate. Qed.
+(** hypotheses of [C05_force_renew_any_issuer] with an issuer that hands out due certificates *)
+Example ex_force_renew_due_issuer :
+  In c1 (cache (ex_stale [])) /\ lock_held (jobs (ex_stale [])) (chead c1) = false /\
+  is_failing (ex_stale []) (chead c1) = false /\ stored (store (ex_stale [])) (chead c1) = Some c1 /\
+  cache (force_renew true (ex_stale []) c1) = [c0; c2; c3; Cert 5 1 [] true true].
+Proof. vm_compute. intuition. Qed.
